@@ -60,6 +60,8 @@ def run(ctx):
             ("forms2", cfg(2, '{"a", "a_1", "mean", "top", "a_a_1"}', '{"a"}', 2, forms=FORMS, tags="TagsFew"), None, None),
             ("opts2", cfg(2, '{"a", "a_1"}', '{"a"}', 1, forms='{"ref", "top", "bottom"}', tags="TagsTwo", tms=ALLTM,
                           intos="{FALSE, TRUE}"), None, None),
+            # one name 12 times (suffixes beyond _9), next to the name a suffixed form would take
+            ("reps12", cfg(12, '{"a", "a_10"}', '{"a"}', 0), None, None),
             ("sim", cfg(7, POOLX, POOLX, 3, forms=FORMS, tags="TagsFew", tms=ALLTM, intos="{FALSE, TRUE}"), "num=2", 8),
         ]
     else:
@@ -71,6 +73,7 @@ def run(ctx):
             ("forms3", cfg(3, SOME, '{"a", "top"}', 1, forms=FORMS, tags="TagsTwo"), None, None),
             ("opts3", cfg(3, '{"a", "a_1"}', '{"a"}', 1, forms='{"ref", "top", "bottom"}', tags="TagsTwo", tms=ALLTM,
                           intos="{FALSE, TRUE}"), None, None),
+            ("reps13", cfg(13, '{"a", "a_10", "a_1"}', '{"a"}', 0), None, None),
             ("sim", cfg(9, POOLX, POOLX, 4, forms=FORMS, tags="TagsFew", tms=ALLTM, intos="{FALSE, TRUE}"), "num=10", 10),
         ]
     # the source dictionary as call names (one output column each), plain and under INTO / an omitted time column
